@@ -355,12 +355,14 @@ func loadFindings() []Finding {
 
 // ---------------------------------------------------------------- race logs
 
-var raceFn = regexp.MustCompile(`(?m)^  (github\.com/streamingfast/substreams/\S+|verif/harness/\S+)\(`)
+var raceTop = regexp.MustCompile(`(?m)^  (\S+)\(`)
 
-// parseRaceLogs returns de-duplicated race signatures: pair of innermost
-// repo functions of the two conflicting accesses.
-func parseRaceLogs(paths []string) map[string]string {
-	out := map[string]string{}
+// parseRaceLogs returns de-duplicated race signatures: the pair of functions
+// performing the two conflicting accesses (top frame of each access stack).
+// Reports in which neither access is made by repository or harness code (e.g.
+// a third-party statistics counter racing with itself) are returned separately.
+func parseRaceLogs(paths []string) (repo map[string]string, external map[string]string) {
+	repo, external = map[string]string{}, map[string]string{}
 	for _, p := range paths {
 		b, err := os.ReadFile(p)
 		if err != nil {
@@ -371,31 +373,35 @@ func parseRaceLogs(paths []string) map[string]string {
 			if i := bytes.Index(blk, []byte("==================")); i >= 0 {
 				blk = blk[:i]
 			}
-			// split in the two access stacks: "Write at"/"Read at" and "Previous write/read at"
 			parts := regexp.MustCompile(`(?m)^Previous `).Split(string(blk), 2)
 			var fns []string
+			ours := false
 			for _, part := range parts {
-				// cut at "Goroutine" section
 				if i := strings.Index(part, "\nGoroutine "); i >= 0 {
 					part = part[:i]
 				}
-				m := raceFn.FindStringSubmatch(part)
-				if m != nil {
-					fn := m[1]
-					fn = strings.TrimPrefix(fn, "github.com/streamingfast/substreams/")
-					fns = append(fns, fn)
-				} else {
-					fns = append(fns, "?")
+				fn := "?"
+				if m := raceTop.FindStringSubmatch(part); m != nil {
+					fn = m[1]
 				}
+				if strings.HasPrefix(fn, "github.com/streamingfast/substreams/") || strings.HasPrefix(fn, "verif/harness/") {
+					ours = true
+				}
+				fn = strings.TrimPrefix(fn, "github.com/streamingfast/substreams/")
+				fns = append(fns, fn)
 			}
 			sort.Strings(fns)
 			sig := "race/" + strings.Join(fns, "|")
-			if _, ok := out[sig]; !ok {
-				out[sig] = trunc(string(blk), 6000)
+			dst := external
+			if ours {
+				dst = repo
+			}
+			if _, ok := dst[sig]; !ok {
+				dst[sig] = trunc(string(blk), 6000)
 			}
 		}
 	}
-	return out
+	return
 }
 
 // ---------------------------------------------------------------- parent main
@@ -445,8 +451,12 @@ func parent(id, tier string) int {
 			m.Violations = append(m.Violations, Violation{Sig: "crash/" + NormalizeMsg(cr.reason), What: "worker process crashed: " + cr.reason, Case: cr.caseIdx, Mode: mode, Detail: d})
 		}
 		if mode == "race" {
-			races := parseRaceLogs(raceLogs)
+			races, ext := parseRaceLogs(raceLogs)
 			m.Counts["race_reports_distinct"] += int64(len(races))
+			m.Counts["race_reports_in_third_party_code_only"] += int64(len(ext))
+			for _, sig := range sortedKeys(ext) {
+				m.Notes = append(m.Notes, "race between two third-party accesses (not judged): "+sig)
+			}
 			for _, sig := range sortedKeys(races) {
 				d, _ := json.Marshal(map[string]string{"report": races[sig]})
 				m.Violations = append(m.Violations, Violation{Sig: sig, What: "data race reported by the Go race detector", Case: -1, Mode: mode, Detail: d})
